@@ -5,6 +5,11 @@ import Kvass.Gen.DiscSrc
 namespace Kvass.Pins
 
 theorem disc_pinned : Kvass.Gen.DiscSrc.digests = [
+  ("cmd/kvass/coordinator.go:configInject", "ccf378daefa4dd4f"),
+  ("cmd/kvass/coordinator.go:configInjectK8s", "351d09b9bed31fbc"),
+  ("cmd/kvass/coordinator.go:configInjectServiceAccount", "46342efbe26e254c"),
+  ("cmd/kvass/coordinator.go:getReplicasManager", "b53701ccd43ba93c"),
+  ("cmd/kvass/coordinator.go:init", "9fa5c392c2f634b2"),
   ("pkg/discovery/discovery.go:New", "a338a751f7246f4c"),
   ("pkg/discovery/discovery.go:TargetsDiscovery.ActiveTargets", "52a715807b9c1d88"),
   ("pkg/discovery/discovery.go:TargetsDiscovery.ActiveTargetsByHash", "0536f338e9efd43c"),
@@ -27,7 +32,10 @@ theorem disc_pinned : Kvass.Gen.DiscSrc.digests = [
   ("pkg/explore/explore.go:Explore.UpdateTargets", "8ce7ea8450da3631"),
   ("pkg/explore/explore.go:Explore.exploreOnce", "6218bfaec288d987"),
   ("pkg/explore/explore.go:New", "f8d5b3eabb2c1589"),
-  ("pkg/explore/explore.go:explore", "7db5e891744adf43")
+  ("pkg/explore/explore.go:explore", "7db5e891744adf43"),
+  ("pkg/scrape/manager.go:Manager.ApplyConfig", "7c4e13302b7ef2ab"),
+  ("pkg/scrape/manager.go:Manager.GetJob", "7f68c8e5467a9d46"),
+  ("pkg/scrape/manager.go:New", "4440f51a08283a4c")
 ] := rfl
 
 end Kvass.Pins
